@@ -121,10 +121,10 @@ def run(F, R, ctx):
 
     # close_marks itself must upgrade the weak mark and close it
     cm = F.one(r"^steel::steel_vm::vm::\{impl Continuation\}::close_marks$")
-    reads = any(e[1] == "StackFrameAttachments" and e[2] == "weak_continuation_mark" for _, e in lib.family_events(F, cm, "fld"))
+    reads = any(e[1] == "StackFrameAttachments" and e[2] == "weak_continuation_mark" for _, e in lib.deep_events(F, cm, "fld"))
     R.inst("C08.a", "Continuation::close_marks reads the frame's mark and closes it",
-           reads and bool(cm.call_blocks(r"\{impl ContinuationMark\}::close$")) and
-           any(re.search(r"::upgrade$", b["callee"]) for _, b in lib.family_calls(F, cm)),
+           reads and any(re.search(r"\{impl ContinuationMark\}::close$", b["callee"]) for _, b in lib.deep_calls(F, cm)) and
+           any(re.search(r"::upgrade$", b["callee"]) for _, b in lib.deep_calls(F, cm)),
            "Continuation::close_marks no longer upgrades the frame's weak mark and closes it", cm.loc(), sample=True)
     ccm = F.one(r"^steel::steel_vm::vm::\{impl VmCore\}::close_continuation_marks$")
     R.inst("C08.a", "VmCore::close_continuation_marks delegates to Continuation::close_marks",
